@@ -15,7 +15,12 @@
 
   Vocabulary
     s.retval g = some v   g's function returned v
-    s.succ g              values delivered by the successful join/tryjoin calls on g so far
+    s.succ g              values delivered by the successful join/tryjoin calls on g so far; for a
+                          call with a NULL result pointer (`callN` / `retN`) the value that was
+                          handed to it and that it discarded (ghost, see Model/Join.lean)
+    s.res a               the `result` cell of fiber a: a target's return value, and for a
+                          fiber that makes calls its private hand-over slot
+    s.nul a               a's call in flight has a NULL result pointer
     s.detX g              a detach has exchanged g's detach_state (g is detached)
     s.claimed g           a join/tryjoin claimed the finished g / g took its parked joiner
     s.destroyed g         fiber_destroy(g) ran;  s.late g = number of post-exchange accesses to
@@ -98,6 +103,29 @@ def okDetached : List Ev :=
    .call 17 .join 16, .ldDet 17 16 3, .ret 17 .join 16 false 0,
    .fnRet 16 1000, .stRes 16 16 1000, .ldDet 16 16 3, .wState 16 16 4, .destroy 17 16]
 
+/-- two targets (16 and 18) -/
+def isT2 : Nat → Bool := fun f => f == 16 || f == 18
+
+/-- NULL result pointer, joiner first: 17 does `fiber_join(16, NULL)` and parks; 16 returns 1000
+    and hands it over into 17's slot; 17 wakes, does NOT read the slot, clears it, SUCCESS.
+    Then 17 does `fiber_join(18, &r)`, parks, and is woken by 19's detach (the F-C04 window):
+    it reads its slot — clear, not 16's value — and returns SUCCESS with 0. -/
+def nullThenJoin : List Ev :=
+  [.callN 17 .join 16, .ldDet 17 16 0, .xchgDet 17 16 0 2, .wState 17 17 3, .wJi 16 16 17,
+   .fnRet 16 1000, .stRes 16 16 1000, .ldDet 16 16 2, .xchgDet 16 16 2 1, .xchgJi 16 16 17,
+   .ldRes 16 16 1000, .stRes 16 17 1000, .wState 16 17 2, .wState 16 16 4, .destroy 17 16,
+   .stRes 17 17 0, .retN 17 .join 16 true,
+   .call 17 .join 18, .ldDet 17 18 0, .xchgDet 17 18 0 2, .wState 17 17 3, .wJi 18 18 17,
+   .call 19 .detach 18, .xchgDet 19 18 2 3, .xchgJi 19 18 17, .wState 19 17 2, .ret 19 .detach 18 true 0,
+   .ldRes 17 17 0, .stRes 17 17 0, .ret 17 .join 18 true 0]
+
+/-- NULL result pointer, finisher first: `fiber_tryjoin(16, NULL)` claims the parked finished
+    fiber without reading its result and wakes it -/
+def nullTryjoin : List Ev :=
+  [.fnRet 16 1000, .stRes 16 16 1000, .ldDet 16 16 0, .xchgDet 16 16 0 1, .wState 16 16 3, .wJi 18 16 16,
+   .callN 17 .tryjoin 16, .ldDet 17 16 1, .ldDet 17 16 1, .xchgDet 17 16 1 2,
+   .xchgJi 17 16 16, .wState 17 16 2, .retN 17 .tryjoin 16 true, .wState 16 16 4, .destroy 18 16]
+
 /-- what the witnesses are judged by -/
 def obs (s : St) : List Nat × Option Nat × Bool × Nat × Bool × Bool :=
   (s.succ 16, s.retval 16, s.destroyed 16, s.late 16, decide (untainted s 16), s.detX 16)
@@ -110,6 +138,14 @@ theorem wOver_obs : ((sys isT).run wOver).map (fun s => (decide (s.pc 16 = .fTak
 theorem okJoinFirst_obs : ((sys isT).run okJoinFirst).map obs = some ([1000], some 1000, true, 0, true, false) := by decide
 theorem okFinishFirst_obs : ((sys isT).run okFinishFirst).map obs = some ([1000], some 1000, true, 0, true, false) := by decide
 theorem okDetached_obs : ((sys isT).run okDetached).map obs = some ([], some 1000, true, 0, true, true) := by decide
+
+/-- … and the two-target witness -/
+def obs2 (s : St) : (List Nat × List Nat × Option Nat × Option Nat) × (Nat × Bool × Bool × Nat) :=
+  ((s.succ 16, s.succ 18, s.retval 16, s.retval 18), (s.res 17, decide (untainted s 16), s.destroyed 16, s.late 16))
+
+theorem nullThenJoin_obs : ((sys isT2).run nullThenJoin).map obs2 =
+    some (([1000], [0], some 1000, none), (0, true, true, 0)) := by decide
+theorem nullTryjoin_obs : ((sys isT).run nullTryjoin).map obs = some ([1000], some 1000, true, 0, true, false) := by decide
 
 /-! ## 1. a successful join / tryjoin comes after the return and carries the return value -/
 
@@ -139,6 +175,122 @@ theorem pending_success_has_value (isTarget : Nat → Bool) : ∀ es s, (sys isT
     ∀ g a op v, untainted s g → s.pc a = .retn op g true v → op ≠ .detach → s.retval g = some v := by
   intro es s h g a op v hu hp hop
   exact (inv_of_run h).i2.cv3 g a op v hu hp hop
+
+/-! ## 1b. the joiner's hand-over slot (joins with and without a result pointer) -/
+
+/-- (unconditional) The private hand-over slot of a fiber that makes calls is clear at every
+    program point outside the stretch "parked in a mailbox … own clearing store": when it is
+    idle, when it issues a call, all along the non-blocking paths, and when it is about to
+    return from ANY join / tryjoin / detach — with or without a result pointer. -/
+theorem slot_clear (isTarget : Nat → Bool) : ∀ es s, (sys isTarget).run es = some s →
+    ∀ a, slotFree (s.pc a) = true → s.res a = 0 := by
+  intro es s h a hp
+  exact (inv_of_run h).i1.sc a hp
+
+/-- (a) After a blocking join returns — `retn` is the program point between the last access of
+    the call and its return, reached by a joiner that waited only through its clearing store —
+    the joiner's slot is clear, whether or not the call had a result pointer and whether it was
+    woken by the finishing fiber or by a detach (window F-C04). -/
+theorem join_return_slot_clear (isTarget : Nat → Bool) : ∀ es s, (sys isTarget).run es = some s →
+    ∀ a op g ok v, s.pc a = .retn op g ok v → s.res a = 0 := by
+  intro es s h a op g ok v hp
+  exact (inv_of_run h).i1.sc a (by simp [hp])
+
+/-- … hence a later call by the same fiber starts with a clear slot, and so does the joiner that
+    is about to park (the state in which the next hand-over finds it). -/
+theorem next_call_slot_clear (isTarget : Nat → Bool) : ∀ es s, (sys isTarget).run es = some s →
+    ∀ a, (s.pc a = .idle ∨ (∃ op g, s.pc a = .called op g) ∨ (∃ g, s.pc a = .jParking g)) → s.res a = 0 := by
+  intro es s h a hp
+  refine (inv_of_run h).i1.sc a ?_
+  rcases hp with hp | ⟨op, g, hp⟩ | ⟨g, hp⟩ <;> simp [hp]
+
+/-- The clearing store is not optional: a woken joiner (either variant) cannot return before
+    it — the model accepts no `ret` / `retN` from the program points between the wake-up and
+    the store, so a build that skips the store is rejected at the return note. -/
+theorem woken_joiner_cannot_return (isTarget : Nat → Bool) : ∀ (s : St) a t,
+    (s.pc a = .jWoken t ∨ ∃ w, s.pc a = .jGotRes t w) →
+      (∀ op g ok v, (sys isTarget).step s (.ret a op g ok v) = none) ∧
+      (∀ op g ok, (sys isTarget).step s (.retN a op g ok) = none) := by
+  intro s a t hp
+  rcases hp with hp | ⟨w, hp⟩ <;> exact ⟨fun op g ok v => by simp [sys, step, stepCore, hp],
+    fun op g ok => by simp [sys, step, stepCore, hp]⟩
+
+/-- With a NULL result pointer the woken joiner does not read its slot (a load is rejected),
+    and the one store it may do to it writes 0 and leads to the SUCCESS return. -/
+theorem null_joiner_clears_unread (isTarget : Nat → Bool) : ∀ (s : St) a t, s.pc a = .jWoken t → s.nul a = true →
+    (∀ v, (sys isTarget).step s (.ldRes a a v) = none) ∧
+    (∀ v s', (sys isTarget).step s (.stRes a a v) = some s' →
+       v = 0 ∧ s'.res a = 0 ∧ s'.pc a = .retn .join t true (s.res a)) := by
+  intro s a t hp hn
+  refine ⟨fun v => by simp [sys, step, stepCore, hp, hn], ?_⟩
+  intro v s' hst
+  obtain ⟨s1, hc, rfl⟩ := step_some hst
+  simp only [stepCore, hp] at hc
+  split at hc
+  · rename_i hh
+    simp at hc
+    subst hc
+    simp [hh.2.1, upd_same]
+  · simp at hc
+
+/-- (b) (unconditional: every history, windows included)  What a joiner finds in its slot after
+    the wake-up is either nothing or the return value of THE TARGET IT IS JOINING — the slot was
+    clear when it parked (`slot_clear`) and only the finishing fiber whose mailbox it is parked
+    in writes to it. -/
+theorem woken_joiner_slot_own_target (isTarget : Nat → Bool) : ∀ es s, (sys isTarget).run es = some s →
+    ∀ p t, (s.pc p = .jParked t ∨ s.pc p = .jWoken t) → s.res p = 0 ∨ s.retval t = some (s.res p) := by
+  intro es s h p t hp
+  rcases hp with hp | hp
+  · exact (inv_of_run h).i1.jo1 p t hp
+  · exact (inv_of_run h).i1.jo2 p t hp
+
+/-- (b) (unconditional)  Every fiber on its way to report SUCCESS v for g holds either 0 or g's
+    return value, never a value handed over for another target. -/
+theorem pending_success_value_own_target (isTarget : Nat → Bool) : ∀ es s, (sys isTarget).run es = some s →
+    ∀ a op g v, s.pc a = .retn op g true v → op ≠ .detach → v = 0 ∨ s.retval g = some v := by
+  intro es s h a op g v hp hop
+  exact (inv_of_run h).i1.jo4 a op g v hp hop
+
+/-- (b) (unconditional)  The value delivered by a successful join / tryjoin on g (for a
+    NULL-result call: the value it was handed and discarded) is g's return value or 0.  The 0 is
+    the known window F-C04 (`wDetach`, `success_after_return_fails`: SUCCESS with NULL before the
+    target returned); without a window `success_after_return_partial` excludes it. -/
+theorem success_value_own_target (isTarget : Nat → Bool) : ∀ es s, (sys isTarget).run es = some s →
+    ∀ g v, v ∈ s.succ g → v = 0 ∨ s.retval g = some v := by
+  intro es s h g v hv
+  exact (inv_of_run h).i1.jo5 g v hv
+
+/-- … in particular a non-NULL value delivered for g is never the return value of a different
+    fiber g' unless the two functions returned the same value. -/
+theorem success_value_not_foreign (isTarget : Nat → Bool) : ∀ es s, (sys isTarget).run es = some s →
+    ∀ g g' v, v ∈ s.succ g → v ≠ 0 → s.retval g' = some v → s.retval g = s.retval g' := by
+  intro es s h g g' v hv hv0 hr
+  rcases (inv_of_run h).i1.jo5 g v hv with h0 | h1
+  · exact absurd h0 hv0
+  · rw [h1, hr]
+
+/-- The 0 cannot be dropped from (b) for the code as it is: in `nullThenJoin` the second join
+    (with a result pointer, ended by a detach) returns SUCCESS 0 for a target that has not
+    returned — but NOT the 1000 handed over for the first, NULL-result, join. -/
+theorem success_value_own_target_zero_needed :
+    ¬ (∀ es s, (sys isT2).run es = some s → ∀ g v, v ∈ s.succ g → s.retval g = some v) := by
+  intro h
+  have ho := nullThenJoin_obs
+  cases hr : (sys isT2).run nullThenJoin with
+  | none => simp [hr] at ho
+  | some s =>
+    simp [hr, obs2] at ho
+    have := h _ _ hr 18 0 (by simp [ho.1.2.1])
+    simp [ho.1.2.2.2] at this
+
+/-- A build in which `fiber_join(g, NULL)` leaves the slot alone is rejected: the return note
+    right after the wake-up is not accepted … -/
+theorem nullThenJoin_without_clear_rejected :
+    (sys isT2).run ((nullThenJoin.take 15) ++ [.retN 17 .join 16 true]) = none := by decide
+
+/-- … and so is a later join by the same fiber that finds the stale value in its slot. -/
+theorem nullThenJoin_stale_slot_rejected :
+    (sys isT2).run ((nullThenJoin.take 27) ++ [.ldRes 17 17 1000]) = none := by decide
 
 /-! ## 2. at most one joiner succeeds -/
 
@@ -328,5 +480,23 @@ example : ∃ s, (sys isT).run okDetached = some s ∧ untainted s 16 ∧ s.detX
   cases hr : (sys isT).run okDetached with
   | none => simp [hr] at ho
   | some s => simp [hr, obs] at ho; exact ⟨s, rfl, ho.2.2.2.2.1, ho.2.2.2.2.2, ho.1, ho.2.2.1⟩
+
+/-- NULL result pointer, joiner first, then a join with a result pointer by the same fiber: the
+    first call succeeds (the discarded value was 16's), the slot is clear afterwards, the second
+    call does not deliver 16's value -/
+example : ∃ s, (sys isT2).run nullThenJoin = some s ∧ untainted s 16 ∧ s.succ 16 = [1000] ∧
+    s.retval 16 = some 1000 ∧ s.res 17 = 0 ∧ s.succ 18 = [0] ∧ s.destroyed 16 = true ∧ s.late 16 = 0 := by
+  have ho := nullThenJoin_obs
+  cases hr : (sys isT2).run nullThenJoin with
+  | none => simp [hr] at ho
+  | some s => simp [hr, obs2] at ho; exact ⟨s, rfl, ho.2.2.1, ho.1.1, ho.1.2.2.1, ho.2.1, ho.1.2.1, ho.2.2.2.1, ho.2.2.2.2⟩
+
+/-- NULL result pointer, finisher first (tryjoin) -/
+example : ∃ s, (sys isT).run nullTryjoin = some s ∧ untainted s 16 ∧ s.succ 16 = [1000] ∧
+    s.retval 16 = some 1000 ∧ s.destroyed 16 = true ∧ s.late 16 = 0 := by
+  have ho := nullTryjoin_obs
+  cases hr : (sys isT).run nullTryjoin with
+  | none => simp [hr] at ho
+  | some s => simp [hr, obs] at ho; exact ⟨s, rfl, ho.2.2.2.2.1, ho.1, ho.2.1, ho.2.2.1, ho.2.2.2.1⟩
 
 end LibfiberVerif.C04
